@@ -28,6 +28,10 @@ CLAIMED['C07'] = ("Coq theorems over the reals, for every base b>0, b<>1 (incl. 
          COMMON_NOTE + REAL_NOTE + "Null log values (-inf, or +inf for b<1) are mapped to probability 0 by the driver; sampling of log distributions is covered by C12.")
 CLAIMED['C19'] = ("Coq theorems (axiom-free): sliding windows number len-L+1, have length L and start at successive positions; counts add up to the number of windows and each count is the number of occurrences; distribution_from_data assigns count/#windows to each occurring word, its keys are exactly the occurring words without duplicates and its mass is 1; the time-series regrouping has the stated shape; binning checks imply every sample gets a label in range. Tie to /repo: boolean model+property checks evaluated by vm_compute for distribution_from_data, dist_from_timeseries, counts_from_data and binned(), and interval goals for entropy_0/1/2.",
          COMMON_NOTE + REAL_NOTE + "Mathematical fact used, not proved: digamma(n) = H_{n-1} - gamma at positive integers. At a bin edge (within 1e-9) either neighbouring label is accepted.")
+CLAIMED['C06'] = ("Coq theorems on label-aligned pair lists: KL >= 0 (Gibbs), KL(p,p)=0, KL infinite iff some p>0 meets q=0; variational distance symmetric, in [0,1], 0 on (p,p), order-independent; Bhattacharyya coefficient symmetric, in [0,1] (AM-GM), order-independent, hence squared Hellinger in [0,1]; earth mover's distance weak duality (axiom-free) so that the dual bound recomputed in Coq and the cost of an explicit coupling bracket the optimum. Tie to /repo: per-query goals for cross entropy, KL (rvs/crvs), JSD with weights, variational, Bhattacharyya, Hellinger, Renyi/Tsallis/Hellinger/alpha divergences, chi-squared f-divergence, Chernoff, EMD (exact rational certificate), maximum correlation (exact rational characteristic-polynomial check), incl. infinite/nan/rejected kinds, (p,p) and swapped arguments.",
+         COMMON_NOTE + REAL_NOTE + "Pinsker, JSD<=H(w) are checked per instance only; Chernoff is checked at the reported optimum and on a grid (1e-4); maximum correlation beyond 3 rows is only bounded; lautum information is not covered. Known finding: f_divergence drops outcomes with q=0<p.")
+CLAIMED['C11'] = ("Coq theorems (axiom-free) over integer-outcome tables: pushforward law and mass for modify_outcomes, insert_rvf preserves the joint law of the old variables and the mass, product tables multiply marginals, mixtures are the stated convex combination outcome by outcome, op(X,Y) for independent scalar X,Y has the law sum over pairs with op x y = z (and @ the independent joint), uniform tables have mass 1, E[X+Y]=E[X]+E[Y]. Tie to /repo: to_dict() of each constructor/operator result (modify, insert_rvf, product, mixtures, 11 scalar operators, @, uniform*, noisy, erasure, pruned/expanded sample spaces, giant_bit, n_mod_m, dice sums, logic gates, binomial, hypergeometric, bernoulli, numeric uniform) compared with the model table as a dictionary, statistics by exact rational or interval goals, in linear and log bases.",
+         COMMON_NOTE + "Outcomes are integers / digit strings (encoded by value). Example constructors have executable closed-form models but no separate theorems.")
 PLANNED = {}
 ALL = ['C%02d' % i for i in range(1, 21)]
 
